@@ -31,6 +31,20 @@ Family `history`: every sequence of length L over a CALL alphabet that contains 
                             k24, k32}, illegal {b0, b1, b15p, b17x, b23p, b25x, b33x, b48x}, short data / short IV with each
                             legal key = 72 calls (373248 histories).
                   Key bytes are derived from VERIF_SEED (spelling only); cases name keys symbolically.
+Family `patterns`: the mode drivers on messages whose 16-byte blocks are RELATED to each other.  Alphabet: every equality pattern
+                  among the blocks = every set partition of the block positions (restricted-growth strings; ECB: the n message blocks,
+                  CBC: IV + n message blocks, so the IV may equal a block) x side {in: the pattern is the call's input (plaintext blocks
+                  for encrypt, CIPHERTEXT blocks for decrypt), out: the pattern is the expected output, the input being the reference
+                  inverse} x the 4 public functions x 3 key sizes x symbol assignment (all symbols distinct data blocks | symbol 0 =
+                  all-zero block; thorough also all-FF and 00..01).  Oracle: result == reference (verif/ref/aes.py block function,
+                  memoised, driven in ECB / CBC here).
+                  quick   : ECB 0..5 blocks (76 patterns), CBC IV + 0..4 blocks (75 patterns), 2 assignments  = 3624 cases
+                  thorough: ECB 0..7 blocks (1156 patterns), CBC IV + 0..6 blocks (1155 patterns), 4 assignments = 110928 cases
+Family `ivs`    : aes_cbc_{encrypt,decrypt} x 3 key sizes x message of 0..2 (thorough 0..3) blocks - the EMPTY message included - x every
+                  IV of the IV alphabet {zero, FF..FF, each single bit (128), each single FF byte (16)} (thorough: + every byte value
+                  1..254 at every byte position).  quick 146 IVs = 2628 cases, thorough 4210 IVs = 101040 cases.
+Every black-box family (blocks, modes, wrapper, patterns, ivs, cache, history): a call with LEGAL arguments that raises an exception of
+                  any type is a failure of clause `raises` (never a harness error).
 """
 from __future__ import annotations
 
@@ -205,7 +219,23 @@ def _seed():
 
 
 def h(b):
-    return bytes(b).hex()
+    try:
+        return bytes(b).hex()
+    except Exception:  # noqa  (a result of an unexpected type is printed, never a harness error)
+        return repr(b)[:80]
+
+
+_NO = object()     # "the call raised" marker returned by _try (never equal to any result)
+
+
+def _try(fails, case, what, f, *args):
+    """A call with LEGAL arguments: its result, or _NO after recording a `raises` failure - an exception of any type on a valid
+    call violates the property, it is never a harness error."""
+    try:
+        return f(*args)
+    except Exception as e:  # noqa
+        fails.append(("raises", case, f"{what} raised {type(e).__name__}: {e} (arguments are legal)"))
+        return _NO
 
 
 # ------------------------------------------------------------------ families (each returns (evals, fails, outcomes))
@@ -465,14 +495,16 @@ def fam_blocks(tier):
     def one(key, pt, tag):
         nonlocal ev
         ev += 1
+        bits = len(key) * 8
         exp = R.encrypt_block(pt, key)
-        got = m.aes_ecb_encrypt(key, pt)
-        outs.add(got)
-        if got != exp:
-            fails.append(("block", ["encrypt", len(key) * 8, tag], f"AES-{len(key) * 8} encrypt key={h(key)} pt={h(pt)} gives {h(got)}, FIPS-197 gives {h(exp)}"))
-        back = m.aes_ecb_decrypt(key, exp)
-        if back != pt:
-            fails.append(("block", ["decrypt", len(key) * 8, tag], f"AES-{len(key) * 8} decrypt key={h(key)} ct={h(exp)} gives {h(back)}, expected {h(pt)}"))
+        got = _try(fails, ["encrypt", bits, tag], f"AES-{bits} encrypt key={h(key)} pt={h(pt)}", m.aes_ecb_encrypt, key, pt)
+        if got is not _NO:
+            outs.add(h(got))
+            if got != exp:
+                fails.append(("block", ["encrypt", bits, tag], f"AES-{bits} encrypt key={h(key)} pt={h(pt)} gives {h(got)}, FIPS-197 gives {h(exp)}"))
+        back = _try(fails, ["decrypt", bits, tag], f"AES-{bits} decrypt key={h(key)} ct={h(exp)}", m.aes_ecb_decrypt, key, exp)
+        if back is not _NO and back != pt:
+            fails.append(("block", ["decrypt", bits, tag], f"AES-{bits} decrypt key={h(key)} ct={h(exp)} gives {h(back)}, expected {h(pt)}"))
     for n in KEYSIZES:
         zero = bytes(n)
         for bit in range(128):          # VarTxt
@@ -487,21 +519,27 @@ def fam_blocks(tier):
     for kx, px, cx in R.FIPS197_C:
         ev += 1
         k, p, c = bytes.fromhex(kx), bytes.fromhex(px), bytes.fromhex(cx)
-        if m.aes_ecb_encrypt(k, p) != c or m.aes_ecb_decrypt(k, c) != p:
-            fails.append(("block", ["fips197", len(k) * 8, "appendixC"], f"FIPS-197 Appendix C vector for AES-{len(k) * 8} fails"))
+        case = ["fips197", len(k) * 8, "appendixC"]
+        e, d = _try(fails, case, "FIPS-197 App. C encrypt", m.aes_ecb_encrypt, k, p), _try(fails, case, "FIPS-197 App. C decrypt", m.aes_ecb_decrypt, k, c)
+        if (e is not _NO and e != c) or (d is not _NO and d != p):
+            fails.append(("block", case, f"FIPS-197 Appendix C vector for AES-{len(k) * 8} fails"))
         assert R.encrypt_block(p, k) == c, "reference AES broken"
     pt = bytes.fromhex(R.SP800_38A_PT)
     iv = bytes.fromhex(R.SP800_38A_IV)
     for kx, cx in R.SP800_38A_ECB:
         ev += 1
         k, c = bytes.fromhex(kx), bytes.fromhex(cx)
-        if m.aes_ecb_encrypt(k, pt) != c or m.aes_ecb_decrypt(k, c) != pt:
-            fails.append(("modes", ["sp800-38a", "ecb", len(k) * 8], f"SP 800-38A ECB-AES{len(k) * 8} vector fails"))
+        case = ["sp800-38a", "ecb", len(k) * 8]
+        e, d = _try(fails, case, "SP 800-38A ECB encrypt", m.aes_ecb_encrypt, k, pt), _try(fails, case, "SP 800-38A ECB decrypt", m.aes_ecb_decrypt, k, c)
+        if (e is not _NO and e != c) or (d is not _NO and d != pt):
+            fails.append(("modes", case, f"SP 800-38A ECB-AES{len(k) * 8} vector fails"))
     for kx, cx in R.SP800_38A_CBC:
         ev += 1
         k, c = bytes.fromhex(kx), bytes.fromhex(cx)
-        if m.aes_cbc_encrypt(k, iv, pt) != c or m.aes_cbc_decrypt(k, iv, c) != pt:
-            fails.append(("modes", ["sp800-38a", "cbc", len(k) * 8], f"SP 800-38A CBC-AES{len(k) * 8} vector fails"))
+        case = ["sp800-38a", "cbc", len(k) * 8]
+        e, d = _try(fails, case, "SP 800-38A CBC encrypt", m.aes_cbc_encrypt, k, iv, pt), _try(fails, case, "SP 800-38A CBC decrypt", m.aes_cbc_decrypt, k, iv, c)
+        if (e is not _NO and e != c) or (d is not _NO and d != pt):
+            fails.append(("modes", case, f"SP 800-38A CBC-AES{len(k) * 8} vector fails"))
     return ev, fails, outs
 
 
@@ -522,22 +560,32 @@ def fam_modes(tier):
                 for salt in range(4):
                     data = _msg(16 * blocks, salt)
                     ev += 1
-                    e = m.aes_ecb_encrypt(key, data)
-                    outs.add(e)
-                    if e != R.ecb_encrypt(key, data):
-                        fails.append(("modes", ["ecb_encrypt", n * 8, blocks], f"ECB encrypt of {blocks} blocks differs"))
-                    if m.aes_ecb_decrypt(key, e) != data:
-                        fails.append(("modes", ["ecb_roundtrip", n * 8, blocks], f"ECB decrypt(encrypt(x)) != x for {blocks} blocks"))
-                    c = m.aes_cbc_encrypt(key, iv, data)
-                    if c != R.cbc_encrypt(key, iv, data):
-                        fails.append(("modes", ["cbc_encrypt", n * 8, blocks], f"CBC encrypt of {blocks} blocks differs"))
-                    if m.aes_cbc_decrypt(key, iv, c) != data:
-                        fails.append(("modes", ["cbc_roundtrip", n * 8, blocks], f"CBC decrypt(encrypt(x)) != x for {blocks} blocks"))
-                    if m.aes_cbc_decrypt(key, iv, R.cbc_encrypt(key, iv, data)) != data:
+                    tag = f"AES-{n * 8}, {'zero' if ivs == 0 else 'non-zero'} IV, {blocks} blocks"
+                    e = _try(fails, ["ecb_encrypt", n * 8, blocks], f"ECB encrypt ({tag})", m.aes_ecb_encrypt, key, data)
+                    if e is not _NO:
+                        outs.add(h(e))
+                        if e != R.ecb_encrypt(key, data):
+                            fails.append(("modes", ["ecb_encrypt", n * 8, blocks], f"ECB encrypt of {blocks} blocks differs"))
+                        d = _try(fails, ["ecb_roundtrip", n * 8, blocks], f"ECB decrypt of the library's ciphertext ({tag})", m.aes_ecb_decrypt, key, e)
+                        if d is not _NO and d != data:
+                            fails.append(("modes", ["ecb_roundtrip", n * 8, blocks], f"ECB decrypt(encrypt(x)) != x for {blocks} blocks"))
+                    d = _try(fails, ["ecb_decrypt", n * 8, blocks], f"ECB decrypt of the reference ciphertext ({tag})", m.aes_ecb_decrypt, key, R.ecb_encrypt(key, data))
+                    if d is not _NO and d != data:
+                        fails.append(("modes", ["ecb_decrypt", n * 8, blocks], f"ECB decrypt of reference ciphertext differs ({blocks} blocks)"))
+                    c = _try(fails, ["cbc_encrypt", n * 8, blocks], f"CBC encrypt ({tag})", m.aes_cbc_encrypt, key, iv, data)
+                    if c is not _NO:
+                        if c != R.cbc_encrypt(key, iv, data):
+                            fails.append(("modes", ["cbc_encrypt", n * 8, blocks], f"CBC encrypt of {blocks} blocks differs"))
+                        d = _try(fails, ["cbc_roundtrip", n * 8, blocks], f"CBC decrypt of the library's ciphertext ({tag})", m.aes_cbc_decrypt, key, iv, c)
+                        if d is not _NO and d != data:
+                            fails.append(("modes", ["cbc_roundtrip", n * 8, blocks], f"CBC decrypt(encrypt(x)) != x for {blocks} blocks"))
+                    d = _try(fails, ["cbc_decrypt", n * 8, blocks], f"CBC decrypt of the reference ciphertext ({tag})", m.aes_cbc_decrypt, key, iv, R.cbc_encrypt(key, iv, data))
+                    if d is not _NO and d != data:
                         fails.append(("modes", ["cbc_decrypt", n * 8, blocks], f"CBC decrypt of reference ciphertext differs ({blocks} blocks)"))
                     # inputs must not be modified and memoryview/bytearray inputs accepted
                     ba = bytearray(data)
-                    if m.aes_cbc_encrypt(key, iv, ba) != c or bytes(ba) != data:
+                    c2 = _try(fails, ["cbc_bytearray", n * 8, blocks], f"CBC encrypt of a bytearray ({tag})", m.aes_cbc_encrypt, key, iv, ba)
+                    if c2 is not _NO and (c2 != R.cbc_encrypt(key, iv, data) or bytes(ba) != data):
                         fails.append(("modes", ["cbc_bytearray", n * 8, blocks], "bytearray input handled differently / modified"))
     return ev, fails, outs
 
@@ -603,25 +651,30 @@ def fam_wrapper(tier):
     ev = 0
     fails = []
     outs = set()
-    if not m.patch_pypdf_fallback_aes():
+    applied = _try(fails, ["patch", "notapplied", 0], "patch_pypdf_fallback_aes()", m.patch_pypdf_fallback_aes)
+    if applied is _NO:
+        return 1, fails, outs
+    if not applied:
         return 1, [("wrapper", ["patch", "notapplied", 0], "patch_pypdf_fallback_aes() returned False: no fallback provider")], outs
     import pypdf._crypt_providers._fallback as fb
     import pypdf._encryption as enc
     import pypdf._crypt_providers as prov
     if enc.CryptAES is not fb.CryptAES or prov.CryptAES is not fb.CryptAES or enc.aes_cbc_decrypt is not m.aes_cbc_decrypt:
         fails.append(("wrapper", ["patch", "bindings", 0], "pypdf bindings not all patched"))
-    m.patch_pypdf_fallback_aes()   # idempotent
+    _try(fails, ["patch", "again", 0], "second patch_pypdf_fallback_aes()", m.patch_pypdf_fallback_aes)   # idempotent
     for n in KEYSIZES:
         key = _msg(n, 7)
         for ln in range(0, 65):
             msg = _msg(ln, n)
             ev += 1
             c = fb.CryptAES(key)
-            ct = c.encrypt(msg)
-            ct2 = c.encrypt(msg)
+            ct = _try(fails, ["encrypt_len", n * 8, ln], f"CryptAES(AES-{n * 8} key).encrypt({ln} bytes)", c.encrypt, msg)
+            ct2 = _try(fails, ["encrypt_len", n * 8, ln], f"CryptAES(AES-{n * 8} key).encrypt({ln} bytes), second call", c.encrypt, msg)
+            if ct is _NO or ct2 is _NO:
+                continue
             padn = 16 - ln % 16
-            if len(ct) != 16 + ln + padn:
-                fails.append(("wrapper", ["encrypt_len", n * 8, ln], f"encrypt({ln} bytes) gives {len(ct)} bytes, expected IV + {ln + padn}"))
+            if not isinstance(ct, (bytes, bytearray)) or len(ct) != 16 + ln + padn:
+                fails.append(("wrapper", ["encrypt_len", n * 8, ln], f"encrypt({ln} bytes) gives {len(ct) if hasattr(ct, '__len__') else type(ct).__name__} bytes, expected IV + {ln + padn}"))
                 continue
             ivx = ct[:16]
             if ivx == ct2[:16]:
@@ -636,7 +689,7 @@ def fam_wrapper(tier):
                 back = None
                 fails.append(("wrapper", ["roundtrip", n * 8, ln % 16], f"decrypt(encrypt(m)) raised {type(e).__name__}: {e} for len {ln}"))
             if back is not None and back != msg:
-                fails.append(("wrapper", ["roundtrip", n * 8, ln % 16], f"decrypt(encrypt(m)) != m for len {ln}: got {len(back)} bytes"))
+                fails.append(("wrapper", ["roundtrip", n * 8, ln % 16], f"decrypt(encrypt(m)) != m for len {ln}: got {h(back)[:80]}"))
             # reference-produced ciphertext (every padding byte value 1..16 occurs over ln = 0..64)
             iv = _msg(16, ln)
             rct = iv + R.cbc_encrypt(key, iv, msg + bytes([padn]) * padn)
@@ -646,7 +699,7 @@ def fam_wrapper(tier):
                 fails.append(("wrapper", ["decrypt_ref", n * 8, ln % 16], f"decrypt of reference ciphertext (len {ln}, pad {padn}) raised {type(e).__name__}: {e}"))
                 continue
             if back != msg:
-                fails.append(("wrapper", ["decrypt_ref", n * 8, ln % 16], f"decrypt of reference ciphertext (len {ln}, pad {padn}) returns {len(back)} bytes"))
+                fails.append(("wrapper", ["decrypt_ref", n * 8, ln % 16], f"decrypt of reference ciphertext (len {ln}, pad {padn}) returns {h(back)[:80]}"))
     # wrong key lengths are rejected through the wrapper too (every key length 0..40, both directions, each call made twice in a row)
     msg = _msg(21, 4)
     for klen in range(0, 41):
@@ -669,7 +722,190 @@ def fam_wrapper(tier):
                 if ok != legal:
                     fails.append(("wrapper", ["wrap_keylen", fn, klen], f"CryptAES({klen}-byte key).{fn} (call {rep}): accepted={ok}"))
                 elif ok and fn == "decrypt" and r != msg:
-                    fails.append(("wrapper", ["wrap_keylen", fn, klen], f"CryptAES({klen}-byte key).decrypt of a reference ciphertext returns {len(r)} bytes"))
+                    fails.append(("wrapper", ["wrap_keylen", fn, klen], f"CryptAES({klen}-byte key).decrypt of a reference ciphertext returns {h(r)[:80]}"))
+    return ev, fails, outs
+
+
+# ------------------------------------------------------------------ block-relation patterns and IV alphabet (mode drivers, black-box)
+
+
+class _Ref:
+    """ECB / CBC over the reference block cipher with the block results memoised per (direction, key, block): the reference costs
+    1-2 ms per block and the pattern families reuse the same blocks / chain prefixes thousands of times."""
+
+    def __init__(self):
+        self.memo = {}
+
+    def enc(self, key, blk):
+        k = (0, key, blk)
+        if k not in self.memo:
+            self.memo[k] = R.encrypt_block(blk, key)
+        return self.memo[k]
+
+    def dec(self, key, blk):
+        k = (1, key, blk)
+        if k not in self.memo:
+            self.memo[k] = R.decrypt_block(blk, key)
+        return self.memo[k]
+
+    def run(self, fn, key, iv, data):
+        blocks = [data[i:i + 16] for i in range(0, len(data), 16)]
+        if fn == "aes_ecb_encrypt":
+            return b"".join(self.enc(key, b) for b in blocks)
+        if fn == "aes_ecb_decrypt":
+            return b"".join(self.dec(key, b) for b in blocks)
+        out = []
+        prev = iv
+        for b in blocks:
+            if fn == "aes_cbc_encrypt":
+                prev = self.enc(key, bytes(x ^ y for x, y in zip(b, prev)))
+                out.append(prev)
+            else:
+                out.append(bytes(x ^ y for x, y in zip(self.dec(key, b), prev)))
+                prev = b
+        return b"".join(out)
+
+
+_INVERSE = {"aes_ecb_encrypt": "aes_ecb_decrypt", "aes_ecb_decrypt": "aes_ecb_encrypt",
+            "aes_cbc_encrypt": "aes_cbc_decrypt", "aes_cbc_decrypt": "aes_cbc_encrypt"}
+ASSIGN_Q = ("det", "zero0")
+ASSIGN_T = ("det", "zero0", "ff0", "lo0")
+SIDES = ("in", "out")
+
+
+def rgs(n):
+    """all restricted-growth strings of length n = all set partitions of n positions = all equality patterns among n blocks"""
+    def go(prefix, mx):
+        if len(prefix) == n:
+            yield list(prefix)
+            return
+        for v in range(mx + 2):
+            yield from go(prefix + [v], max(mx, v))
+    if n == 0:
+        yield []
+    else:
+        yield from go([0], 0)
+
+
+def _renorm(pat):
+    names = {}
+    return [names.setdefault(v, len(names)) for v in pat]
+
+
+def _sym_block(assign, sym):
+    """the 16-byte value of pattern symbol `sym`: distinct pseudo-data blocks; symbol 0 optionally the all-zero / all-FF / 00..01 block
+    (distinct from every data block by construction of _msg: an arithmetic progression with odd step)"""
+    if sym == 0 and assign != "det":
+        return {"zero0": bytes(16), "ff0": b"\xff" * 16, "lo0": bytes(15) + b"\x01"}[assign]
+    return _msg(16, 40 + sym + _seed())
+
+
+def _pattern_key(bits):
+    return _msg(bits // 8, 13 + _seed())
+
+
+def run_pattern(m, ref, fn, bits, side, assign, pat):
+    """One pattern case -> [(clause, msg)].  fn ECB: `pat` are the symbols of the n message blocks; fn CBC: pat[0] is the IV's symbol,
+    pat[1:] the message blocks (so the IV may equal a message block).  side "in": the pattern is the call's INPUT (plaintext blocks
+    for encrypt, ciphertext blocks for decrypt); side "out": the pattern is the call's expected OUTPUT (the input is the reference
+    inverse of it).  The result must be the reference result (hence decrypt inverts encrypt on these messages)."""
+    key = _pattern_key(bits)
+    cbc = "cbc" in fn
+    if cbc and not pat:
+        return []
+    blocks = [_sym_block(assign, v) for v in pat]
+    iv = blocks[0] if cbc else None
+    body = b"".join(blocks[1:] if cbc else blocks)
+    if side == "in":
+        data, exp = body, ref.run(fn, key, iv, body)
+    else:
+        data, exp = ref.run(_INVERSE[fn], key, iv, body), body
+    desc = f"{fn}(AES-{bits} key, {'IV ' + h(iv) + ', ' if cbc else ''}{len(data) // 16} blocks; block pattern {''.join(map(str, pat))} on the {'input' if side == 'in' else 'output'}, symbol 0 = {assign})"
+    try:
+        got = getattr(m, fn)(key, iv, data) if cbc else getattr(m, fn)(key, data)
+    except Exception as e:  # noqa
+        return [("raises", f"{desc} raised {type(e).__name__}: {e} (arguments are legal)")]
+    if got != exp:
+        bad = [i for i in range(len(exp) // 16) if not isinstance(got, (bytes, bytearray)) or got[16 * i:16 * i + 16] != exp[16 * i:16 * i + 16]]
+        return [("modes", f"{desc} returns {h(got)[:160]}, FIPS-197/SP 800-38A give {h(exp)[:160]} (wrong blocks {bad}, {len(got) if hasattr(got, '__len__') else '?'} bytes)")]
+    return []
+
+
+def fam_patterns(arg):
+    """every equality pattern among the blocks of a message (all set partitions of the block positions; CBC: of IV + blocks) up to
+    `maxpos` positions x the given functions x sides x symbol assignments, for one key size"""
+    mode, bits, maxpos, fns, assigns = arg
+    m = _m()
+    ref = _Ref()
+    ev = 0
+    fails = []
+    outs = set()
+    for npos in range(1 if mode == "cbc" else 0, maxpos + 1):
+        for pat in rgs(npos):
+            for fn in fns:
+                for side in SIDES:
+                    for assign in assigns:
+                        ev += 1
+                        for clause, msg in run_pattern(m, ref, fn, bits, side, assign, pat):
+                            fails.append((clause, ["pattern", fn, bits, side, assign, list(pat)], msg))
+            outs.add((mode, tuple(pat)))
+    return ev, fails, outs
+
+
+def iv_alphabet(tier):
+    """IV names: zero, ff, every single set bit, every single FF byte; thorough: every byte value at every byte position"""
+    names = ["zero", "ff"] + [f"bit:{b}" for b in range(128)] + [f"byte:{p}" for p in range(16)]
+    if tier != "quick":
+        names += [f"val:{p}:{v}" for p in range(16) for v in range(1, 255)]
+    return names
+
+
+def _iv_value(name):
+    if name == "zero":
+        return bytes(16)
+    if name == "ff":
+        return b"\xff" * 16
+    parts = name.split(":")
+    iv = bytearray(16)
+    if parts[0] == "bit":
+        iv[int(parts[1]) // 8] = 0x80 >> (int(parts[1]) % 8)
+    elif parts[0] == "byte":
+        iv[int(parts[1])] = 0xFF
+    else:
+        iv[int(parts[1])] = int(parts[2])
+    return bytes(iv)
+
+
+def run_iv(m, ref, fn, bits, name, nblocks):
+    key = _pattern_key(bits)
+    iv = _iv_value(name)
+    data = _msg(16 * nblocks, 60 + _seed())
+    exp = ref.run(fn, key, iv, data)
+    desc = f"{fn}(AES-{bits} key, IV {h(iv)}, {nblocks} blocks)"
+    try:
+        got = getattr(m, fn)(key, iv, data)
+    except Exception as e:  # noqa
+        return [("raises", f"{desc} raised {type(e).__name__}: {e} (arguments are legal)")]
+    if got != exp:
+        return [("modes", f"{desc} returns {h(got)[:96]}, SP 800-38A gives {h(exp)[:96]}")]
+    return []
+
+
+def fam_ivs(arg):
+    """CBC with every IV of the IV alphabet x message lengths 0..maxblocks blocks (the EMPTY message included) x both directions"""
+    bits, tier, maxblocks = arg
+    m = _m()
+    ref = _Ref()
+    ev = 0
+    fails = []
+    outs = set()
+    for name in iv_alphabet(tier):
+        for nblocks in range(maxblocks + 1):
+            for fn in FNS[2:]:
+                ev += 1
+                for clause, msg in run_iv(m, ref, fn, bits, name, nblocks):
+                    fails.append((clause, ["iv", fn, bits, name, nblocks], msg))
+        outs.add(name)
     return ev, fails, outs
 
 
@@ -816,7 +1052,7 @@ def fam_history(arg):
 
 FAMS = {"tables": fam_tables, "gfmul": fam_gfmul, "shiftrows": fam_shiftrows, "mix_small": fam_mix_small, "mix_full": fam_mix_full,
         "keyschedule": fam_keyschedule, "blocks": fam_blocks, "modes": fam_modes, "lengths": fam_lengths, "wrapper": fam_wrapper,
-        "cache": fam_cache, "history": fam_history}
+        "cache": fam_cache, "history": fam_history, "patterns": fam_patterns, "ivs": fam_ivs}
 
 
 def _task(arg):
@@ -839,6 +1075,16 @@ def reexec(fmt, case):
         table = {tuple(t): _hist_expect(t, keys) for t in seq}
         r = _run_history(seq, table)
         return [(r[0], r[2])] if r is not None and r[1][1] == seq else []
+    if case[0] == "pattern":
+        _, fn, bits, side, assign, pat = case
+        if fn not in FNS or bits not in (128, 192, 256) or side not in SIDES or assign not in ASSIGN_T or list(pat) != _renorm(pat):
+            return []
+        return run_pattern(_m(), _Ref(), fn, bits, side, assign, list(pat))
+    if case[0] == "iv":
+        _, fn, bits, name, nblocks = case
+        if fn not in FNS[2:] or bits not in (128, 192, 256) or name not in set(iv_alphabet("thorough")) or not 0 <= nblocks <= 8:
+            return []
+        return run_iv(_m(), _Ref(), fn, bits, name, nblocks)
     if case[0] in ("cache", "cache_size"):
         seq = list(case[1])
         if not seq:
@@ -863,7 +1109,7 @@ def reexec(fmt, case):
         return [(c, msg) for c, cs, msg in fails]
     if fam == "__":
         fam = {"ecb_encrypt": "modes", "ecb_roundtrip": "modes", "cbc_encrypt": "modes", "cbc_roundtrip": "modes", "cbc_decrypt": "modes",
-               "cbc_bytearray": "modes"}.get(case[0], "wrapper")
+               "cbc_bytearray": "modes", "ecb_decrypt": "modes"}.get(case[0], "wrapper")
     ev, fails, _ = FAMS[fam]("quick")
     return [(c, msg) for c, cs, msg in fails if cs == case]
 
@@ -874,6 +1120,21 @@ def shrinks(case):
         seq = case[1]
         for i in range(len(seq) - 2, -1, -1):
             yield [case[0], seq[:i] + seq[i + 1:]]
+    if case[0] == "pattern":
+        # drop one block (never the IV position of a CBC pattern), later blocks first; then the plainest symbol assignment / key size
+        _, fn, bits, side, assign, pat = case
+        for i in range(len(pat) - 1, 0 if "cbc" in fn else -1, -1):
+            yield ["pattern", fn, bits, side, assign, _renorm(pat[:i] + pat[i + 1:])]
+        if assign != "det":
+            yield ["pattern", fn, bits, side, "det", pat]
+        if bits != 128:
+            yield ["pattern", fn, 128, side, assign, pat]
+    if case[0] == "iv":
+        _, fn, bits, name, nblocks = case
+        for nb in range(nblocks):
+            yield ["iv", fn, bits, name, nb]
+        if bits != 128:
+            yield ["iv", fn, 128, name, nblocks]
     return
 
 
@@ -893,6 +1154,10 @@ def _hist_view(steps):
 def fingerprint_view(case):
     if case and case[0] == "history":
         return ["history", _hist_view(case[1])]
+    if case and case[0] == "pattern":       # key size and symbol spelling stay in the case, not in the fingerprint
+        return ["pattern", case[1], case[3], case[5]]
+    if case and case[0] == "iv":            # the IV class (zero / ff / bit / byte / val), not the position
+        return ["iv", case[1], case[3].split(":")[0], case[4]]
     return case
 
 
@@ -909,6 +1174,18 @@ def embeds(small, big):
             if _hist_view([b[i] for i in pick] + [b[-1]]) == va:
                 return True
         return False
+    if small[0] == "pattern":
+        # same function and side, and the equality pattern of `small` occurs among some of the positions of `big` (CBC: IV kept)
+        if small[1] != big[1] or small[3] != big[3] or len(small[5]) > len(big[5]):
+            return False
+        a, b = small[5], big[5]
+        lead = 1 if "cbc" in small[1] else 0
+        for pick in itertools.combinations(range(lead, len(b)), len(a) - lead):
+            if _renorm([b[i] for i in range(lead)] + [b[i] for i in pick]) == a:
+                return True
+        return False
+    if small[0] == "iv":
+        return small[1] == big[1] and small[3].split(":")[0] == big[3].split(":")[0] and small[4] <= big[4]
     return small[0] != "table" or small[1] == big[1]
 
 
@@ -932,6 +1209,21 @@ def run(ctx):
         tasks += [("history", ("quick", 4, (a, b))) for a in range(nq) for b in range(nq)]
         tasks += [("history", ("thorough", 3, (a,))) for a in range(nt)]
         hist_bounds = {"alphabet": f"quick ({nq} calls) at length 4 + wide ({nt} calls) at length 3", "length": HL, "histories": nq ** 4 + nt ** 3}
+    # block-equality patterns (all set partitions of the block positions) and the IV alphabet
+    pmax = 5 if ctx.quick else 7
+    assigns = ASSIGN_Q if ctx.quick else ASSIGN_T
+    for bits in (128, 192, 256):
+        if ctx.quick:
+            tasks += [("patterns", ("ecb", bits, pmax, FNS[:2], assigns)), ("patterns", ("cbc", bits, pmax, FNS[2:], assigns))]
+        else:
+            tasks += [("patterns", ("ecb" if "ecb" in fn else "cbc", bits, pmax, (fn,), (a,))) for fn in FNS for a in assigns]
+        tasks.append(("ivs", (bits, ctx.tier, 2 if ctx.quick else 3)))
+    npat = {"ecb": sum(1 for n in range(0, pmax + 1) for _ in rgs(n)), "cbc": sum(1 for n in range(1, pmax + 1) for _ in rgs(n))}
+    pat_bounds = {"ecb_blocks": f"0..{pmax}", "cbc_blocks": f"IV + 0..{pmax - 1}", "patterns_ecb": npat["ecb"], "patterns_cbc": npat["cbc"],
+                  "sides": list(SIDES), "symbol_assignments": list(assigns), "key_sizes": [128, 192, 256],
+                  "cases": (npat["ecb"] + npat["cbc"]) * 2 * len(SIDES) * len(assigns) * 3}
+    iv_bounds = {"ivs": len(iv_alphabet(ctx.tier)), "alphabet": "zero, ff, 128 single bits, 16 single FF bytes" + ("" if ctx.quick else ", 16 x 254 single byte values"),
+                 "message_blocks": f"0..{2 if ctx.quick else 3}", "functions": list(FNS[2:]), "key_sizes": [128, 192, 256]}
     if not ctx.quick:
         tasks += [("mix_full", (a, a + 2)) for a in range(0, 256, 2)]
     random.Random(ctx.seed).shuffle(tasks)
@@ -959,14 +1251,21 @@ def run(ctx):
                    "key sizes and every key length 0..40, key lengths 0..40 / data lengths 0..64 / IV lengths 0..32, all key-use sequences of "
                    "length L over 5 legal keys from a fresh module (every prefix judged), all call histories of length H over a call alphabet "
                    "with legal and rejected calls (4 functions x legal / wrong-length keys, short data, short IV) from a fresh module, every "
-                   "step judged (legal -> reference result, illegal -> ValueError); distinct_nontrivial = distinct observed outputs summed "
+                   "step judged (legal -> reference result, illegal -> ValueError); every equality pattern among the blocks of a message "
+                   "(all set partitions of the block positions, CBC: of IV + blocks) on the input or on the expected output of each of the "
+                   "4 functions x 3 key sizes x symbol assignments (symbol 0 = data / zero / FF / 00..01 block); CBC with every IV of an IV "
+                   "alphabet x 0..k blocks (the empty message included); a valid call that raises ANY exception is a `raises` failure in "
+                   "every black-box family; distinct_nontrivial = distinct observed outputs summed "
                    "over families",
            "per_family": per, "exhaustive": True,
-           "bounds": {"mixcolumns": "2-byte columns" if ctx.quick else "2^32", "cache_sequence_length": L, "history": hist_bounds},
+           "bounds": {"mixcolumns": "2-byte columns" if ctx.quick else "2^32", "cache_sequence_length": L, "history": hist_bounds,
+                      "patterns": pat_bounds, "ivs": iv_bounds},
            "hooks_absent": sorted(absent),
            "samples": [{"family": "blocks", "case": "AES-192 key=00..17 pt=00112233.. -> dda97ca4864cdfe06eaf70a0ec0d7191 (FIPS-197 C.2)"},
                        {"family": "wrapper", "case": "CryptAES(key).encrypt(37-byte msg) -> 16-byte IV + 48 bytes; reference CBC decrypt ends in 0b x 11"},
                        {"family": "cache", "case": "key-use sequence (0,1,2,3,4,0): eviction of key 0 then re-expansion"},
+                       {"family": "patterns", "case": "aes_ecb_decrypt, pattern 0012 on the input: ciphertext blocks A|A|B|C -> D(A)|D(A)|D(B)|D(C)"},
+                       {"family": "ivs", "case": "aes_cbc_decrypt(key, IV = bit 127 only, b'') -> b''"},
                        {"family": "history", "case": "aes_ecb_encrypt k16a ok ; aes_cbc_decrypt b17x ok (ValueError) ; aes_ecb_decrypt b17x ok (ValueError again)"}]}
     return {"coverage": cov, "failures": fails, "harness_errors": herr,
             "assumptions": ["reference AES (verif/ref/aes.py) is itself validated against the hard-coded FIPS-197/SP 800-38A vectors in the same run",
